@@ -26,7 +26,9 @@ CONSTANTS Pods, Ctrs, PodOf,       \* PodOf \in [Ctrs -> Pods]
           ConsistentEnv,           \* TRUE: the runtime only sends lifecycle events that fit its own view of a container (C05);
                                    \* FALSE: any event at any time, for known and unknown ids (C14)
           StrictPolicy,            \* TRUE: the policy only writes to created/running containers and the one being created
-          WithEvents               \* TRUE: policy events (cold start completion) arrive between requests
+          WithEvents,              \* TRUE: policy events (cold start completion) arrive between requests
+          FlushOnError             \* TRUE: a failing CreateContainer/UpdateContainer pushes what it changed for OTHER containers
+                                   \* (the code since the repair of F-C05-1/2); FALSE: it returns without (the code before)
 
 VARIABLES
     pods,      \* pods in the cache
@@ -135,12 +137,23 @@ Create(c) ==
          IN \E ws \in WriteSeqs(Targets(c) \cup {c}), ok \in BOOLEAN :
               LET st1 == ApplyWrites(st0, ws)
               IN IF ~ok
-                 THEN \* allocation failed: container goes stale, the handler returns WITHOUT draining
-                      /\ SetSt([st1 EXCEPT !.ctrs[c].st = "stale"])
-                      /\ residue' = residue \cup (st1.pend \cap DOMAIN st1.ctrs)
-                      /\ reply' = Reply("Create", c, TRUE, <<>>, <<>>, <<>>)
-                      /\ rtlive' = rtlive \ {c}          \* a refused creation: the runtime has no such container
-                      /\ UNCHANGED <<pods, rt>>
+                 THEN \* allocation failed: the container goes stale and its own pending adjustment is dropped; what the
+                      \* attempt changed for other containers is pushed (unsolicited update) -- before the repair the
+                      \* handler returned without draining anything
+                      IF FlushOnError
+                      THEN LET st2 == [st1 EXCEPT !.ctrs[c].st = "stale"]
+                               a   == TakeAdj(st2, c)
+                               d   == Drain([a.st EXCEPT !.req[c] = NoReq, !.pend = @ \ {c}], c)
+                           IN /\ SetSt(d.st)
+                              /\ rt' = FoldUpd(rt, d.upd)
+                              /\ reply' = Reply("Create", c, TRUE, <<>>, <<>>, d.upd)
+                              /\ rtlive' = rtlive \ {c}
+                              /\ UNCHANGED <<pods, residue>>
+                      ELSE /\ SetSt([st1 EXCEPT !.ctrs[c].st = "stale"])
+                           /\ residue' = residue \cup (st1.pend \cap DOMAIN st1.ctrs)
+                           /\ reply' = Reply("Create", c, TRUE, <<>>, <<>>, <<>>)
+                           /\ rtlive' = rtlive \ {c}          \* a refused creation: the runtime has no such container
+                           /\ UNCHANGED <<pods, rt>>
                  ELSE LET st2 == [st1 EXCEPT !.ctrs[c].st = "created"]
                           a   == TakeAdj(st2, c)
                           d   == Drain(a.st, c)
@@ -163,10 +176,16 @@ Update(c) ==
     ELSE \E ws \in WriteSeqs(Targets(c)), ok \in BOOLEAN :
            LET st1 == ApplyWrites(St, ws)
            IN IF ~ok
-              THEN /\ SetSt(st1)
-                   /\ residue' = residue \cup (st1.pend \cap DOMAIN st1.ctrs)
-                   /\ reply' = Reply("Update", c, TRUE, <<>>, <<>>, <<>>)
-                   /\ UNCHANGED <<pods, rt, rtlive>>
+              THEN IF FlushOnError
+                   THEN LET d == Drain(st1, None)
+                        IN /\ SetSt(d.st)
+                           /\ rt' = FoldUpd(rt, d.upd)
+                           /\ reply' = Reply("Update", c, TRUE, <<>>, <<>>, d.upd)
+                           /\ UNCHANGED <<pods, rtlive, residue>>
+                   ELSE /\ SetSt(st1)
+                        /\ residue' = residue \cup (st1.pend \cap DOMAIN st1.ctrs)
+                        /\ reply' = Reply("Update", c, TRUE, <<>>, <<>>, <<>>)
+                        /\ UNCHANGED <<pods, rt, rtlive>>
               ELSE LET d == Drain(st1, None)
                    IN /\ SetSt(d.st)
                       /\ rt' = FoldUpd(rt, d.upd)
@@ -338,6 +357,10 @@ Inv_RuntimeEqualsCache ==
     \A w \in Bad_RuntimeEqualsCache(rt, rtlive, ctrs) : w[1] \in residue \cup evpend
 Inv_NothingPending == Bad_NothingPending(pend, rtlive, ctrs) \subseteq residue \cup evpend
 Inv_NoUpdateToDead == Bad_UpdateToDead(reply, rtlive) \subseteq residue
+\* a failing CreateContainer/UpdateContainer leaves nothing pending for a container the runtime has (it pushes what it
+\* changed): holds with FlushOnError, refuted by TLC for the code before the repair (MC_Pipeline_noflush.cfg, must-find)
+Inv_FailedRequestFlushes ==
+    (reply.ev \in {"Create", "Update"} /\ reply.err) => {c \in Bad_NothingPending(pend, rtlive, ctrs) : req[c].k = "upd"} = {}
 Inv_AdjDescribesCreated == AdjDescribesCreated(reply, ctrs)
 \* the pending request object is an adjustment only while the container is being created (or its creation failed)
 Inv_ReqKind == \A c \in Cached : req[c].k = "adj" => ctrs[c].st \in {"creating", "stale"}
